@@ -1,9 +1,9 @@
 """C01 -- every stored sample belongs to exactly one shell: its own."""
-from ..rowfacts import rule_M3, rule_M4, rule_M5
+from ..rowfacts import rule_M1, rule_M3, rule_M4, rule_M5
 from ..intervals import rule_M6
 from ..sampler_rules import rule_L1_sampler, rule_L2_move, rule_L3_L4, rule_M7
 from ..agree import rule_A5, rule_Q3
-from ..effects import rule_F6
+from ..effects import rule_F6, rule_F7
 from ..pathrules import rule_T8i
 
 LEVEL_TEXT = ('Static membership-fact and lockstep rules on the three Sampler functions that '
@@ -26,7 +26,9 @@ def run(ctx):
     rule_Q3(ctx)
     rule_T8i(ctx)
     rule_M3(ctx)
+    rule_M1(ctx)      # a stored point lies inside the bound it was drawn from
     rule_M6(ctx)
+    rule_F7(ctx)      # ... and user code cannot overwrite it before it is stored
     rule_F6(ctx)
     ctx.floor('M4', 5, 'exclusion obligations')
     ctx.floor('M5', 7, 'split obligations')
